@@ -735,10 +735,17 @@ func c02Check(run *Run, root *c02Node, data []byte, feats map[string]bool, corru
 		Data      any      `json:"data"`
 		DataNull  bool     `json:"dataNull"`
 		Malformed bool     `json:"malformed"`
+		Wf        bool     `json:"wf"`
 	}
 	md := json.NewDecoder(bytes.NewReader(m))
 	md.UseNumber()
 	md.Decode(&mo)
+	// the shape hypothesis of the type-safety theorems (Props.C02 two_pass_agree, rendered_data_type_safe), evaluated by the model
+	if mo.Wf {
+		run.Feat("tree_has_the_shape_of_the_theorems")
+	} else {
+		run.Feat("tree_outside_the_shape_of_the_theorems")
+	}
 	// the model distinguishes typename missing / inaccessible; the Go message is the same for both
 	for i := range mo.Errors {
 		if c, _ := mo.Errors[i][0].(string); c == "typenameMissing" || c == "typenameInaccessible" {
